@@ -57,9 +57,19 @@ def run(kind: str, plan: Plan, inject=None, status_cb="ok", t_end: float = T_END
     state = {"last_disturbance": 0.0, "probe_fed": False, "deliveries_at_probe": 0}
     a_pkt, p_pkt = valid_packet(kind, 0), valid_packet(kind, 1)
 
+    fed: list[tuple[float, int]] = []          # (time, connection) of every complete valid packet fed on a healthy link
+
+    def feed_valid(s, conn, pkt):
+        r = s.readers.get(conn)
+        if r is None or r.at_eof() or r.exception() is not None or s.writers[conn].closed:
+            return
+        if s.client is not None and s.client.state.name == "CLOSED":
+            return
+        fed.append((s.loop.time(), conn))
+        s.feed(conn, pkt)
+
     def on_accept(s, conn):
-        s.at_time(s.loop.time() + 1.0, lambda: conn in s.readers and not s.readers[conn].at_eof()
-                  and s.readers[conn].exception() is None and s.feed(conn, a_pkt))
+        s.at_time(s.loop.time() + 1.0, lambda: feed_valid(s, conn, a_pkt))
     plan.accept_hooks.append(on_accept)
 
     def scenario(s: vloop.Session):
@@ -76,7 +86,7 @@ def run(kind: str, plan: Plan, inject=None, status_cb="ok", t_end: float = T_END
                 return
             state["probe_fed"] = True
             state["deliveries_at_probe"] = len(s.delivered)
-            s.feed(conn, p_pkt)
+            feed_valid(s, conn, p_pkt)
         s.at_time(t_end - 4.0, probe)
 
     raw = sess.run(vloop.make_client_factory(kind), scenario, until=t_end, status_cb=status_cb)
@@ -86,6 +96,16 @@ def run(kind: str, plan: Plan, inject=None, status_cb="ok", t_end: float = T_END
     last_dist = max(state["last_disturbance"], last_refuse)
     settled = (t_end - last_dist) >= 30.0
     probe_lost = state["probe_fed"] and len(sess.delivered) <= state["deliveries_at_probe"]
+    # every complete frame fed on a healthy link must be delivered, unless a fault hit that link right after it
+    # (a reset discards what the reader has not yet handed over) or the client was being closed
+    faults = [(e["t"], e["conn"]) for e in raw if e["e"] in ("Eof", "Reset", "WriteError", "Banner")]
+    closed_at = next((e["t"] for e in raw if e["e"] == "Call" and e.get("f") == "close"), None)
+    accepts = [(e["t"], e["k"]) for e in raw if e["e"] == "OpenResult" and e["r"] == "accept"]
+    due = sum(1 for (tf, c) in fed if not any(fc == c and ft <= tf + 0.5 for ft, fc in faults)      # the link was and stayed healthy
+              and not any(k > c and ta <= tf + 0.5 for ta, k in accepts)       # c was still the client's link
+              and (closed_at is None or tf + 0.5 < closed_at))
+    if closed_at is None and len(sess.delivered) < due:
+        probe_lost = True
     starved = sess.beats < int(end["t"]) - 2
     return to_monitor(raw, settled, probe_lost, starved), raw
 
